@@ -41,6 +41,7 @@ import (
 	"fmt"
 	"math/rand"
 	"os"
+	"runtime"
 	"sort"
 	"strconv"
 	"strings"
@@ -174,6 +175,31 @@ func (s *scriptSched) Left() int {
 	return len(s.toks) - s.i
 }
 
+// relSched: the i-th token lies rel[i] NANOSECONDS after the instant at which Next is asked for it (negative: before it). The
+// schedule decides the token time when it is asked, so a token can be placed a few microseconds ahead of the very clock reading
+// the Waiter is about to take - a distance no token fixed in advance can be given reliably (sleeps overshoot by more than that).
+type relSched struct {
+	mu  sync.Mutex
+	rel []int64
+	i   int
+}
+
+func (s *relSched) Start(time.Time) {}
+func (s *relSched) Next() (time.Time, bool) {
+	s.mu.Lock()
+	defer s.mu.Unlock()
+	if s.i >= len(s.rel) {
+		return time.Now(), false
+	}
+	s.i++
+	return time.Now().Add(time.Duration(s.rel[s.i-1])), true
+}
+func (s *relSched) Left() int {
+	s.mu.Lock()
+	defer s.mu.Unlock()
+	return len(s.rel) - s.i
+}
+
 type recGun struct {
 	rec   *recorder
 	resp  []time.Duration
@@ -301,6 +327,12 @@ func runWaiter(m map[string]string) string {
 	for _, t := range toks {
 		ss.toks = append(ss.toks, addUnits(rec.clk.T0, t, unit))
 	}
+	var inner core.Schedule = ss
+	if rel := parseMs(m["rel"]); len(rel) > 0 {
+		// tokens relative to the instant they are asked for (ns); `toks` is not given then
+		inner = &relSched{rel: rel}
+		toks = rel
+	}
 	ctx, cancel := context.WithCancel(context.Background())
 	defer cancel()
 	if c, ok := m["cancel"]; ok {
@@ -309,7 +341,7 @@ func runWaiter(m map[string]string) string {
 		defer tm.Stop()
 	}
 	slow, _ := strconv.ParseInt(m["slownext"], 10, 64)
-	w := coreutil.NewWaiter(&recSched{Schedule: ss, rec: rec, slow: time.Duration(slow) * time.Microsecond})
+	w := coreutil.NewWaiter(&recSched{Schedule: inner, rec: rec, slow: time.Duration(slow) * time.Microsecond})
 	for i := range toks {
 		if i < len(sleeps) && sleeps[i] > 0 {
 			time.Sleep(time.Duration(sleeps[i]) * unit)
@@ -324,7 +356,7 @@ func runWaiter(m map[string]string) string {
 		}
 	}
 	then := parseMs(m["then"])
-	if len(then) > 0 {
+	if len(then) > 0 && m["rel"] == "" {
 		// let the last token of the first waiter pass (a sleep that was cancelled has its deadline behind it)
 		last := int64(0)
 		for _, t := range toks {
@@ -442,6 +474,104 @@ func runEngine(m map[string]string) string {
 	return fmt.Sprintf("end=%d err=%s total=%d bad=%d net=%s tag=%s offs=%s seq=%s", end, e, total, rec.bad, rec.net, rec.tag, strings.Join(offs, ","), rec.render())
 }
 
+// runRace: `rounds` times a FRESH profile (real constructors, never Start()ed: the first Next takes the clock reading as the
+// profile's start) is shared by `inst` goroutines, each with a real Waiter of its own, which are released together and take their
+// FIRST token at the same moment - the start of a pool whose instances are started at once. Each goroutine makes `per` passes
+// (Wait, IsSlowDown -> F | D); the round is cancelled once every goroutine has its first token and 50 us have passed, so tokens
+// that lie in the future are not waited for. Observation: per kept round `<rs>/<entries>` with rs = the instant (ns since T0)
+// just before the goroutines were released; every round in which a token precedes rs or an action precedes its token is
+// kept (at most 3), and the first two rounds always.
+func runRace(m map[string]string) string {
+	inst, _ := strconv.Atoi(m["inst"])
+	rounds, _ := strconv.Atoi(m["rounds"])
+	per, _ := strconv.Atoi(m["per"])
+	if inst < 2 {
+		inst = 2
+	}
+	if per < 1 {
+		per = 1
+	}
+	clk := trec.NewClock()
+	var kept []string
+	odd := 0
+	total := 0
+	for cp := buildProfile(m["prof"]); total < 100_000; total++ {
+		if _, ok := cp.Next(); !ok {
+			break
+		}
+	}
+	for round := 0; round < rounds; round++ {
+		rec := &recorder{clk: clk, seqs: map[int64]*[]entry{}, net: "-", tag: "-"}
+		shared := &recSched{Schedule: buildProfile(m["prof"]), rec: rec}
+		ctx, cancel := context.WithCancel(context.Background())
+		var ready, first atomic.Int32
+		var release atomic.Bool
+		var wg sync.WaitGroup
+		for i := 0; i < inst; i++ {
+			wg.Add(1)
+			go func() {
+				defer wg.Done()
+				w := coreutil.NewWaiter(shared)
+				ready.Add(1)
+				for spins := 0; !release.Load(); spins++ {
+					if spins > 2000 {
+						runtime.Gosched()
+					}
+				}
+				for k := 0; k < per; k++ {
+					ok := w.Wait(ctx)
+					if k == 0 {
+						first.Add(1)
+					}
+					if !ok {
+						continue
+					}
+					if w.IsSlowDown(ctx) {
+						rec.decided('D')
+					} else {
+						rec.decided('F')
+					}
+				}
+			}()
+		}
+		for ready.Load() < int32(inst) {
+			runtime.Gosched()
+		}
+		rs := clk.Now()
+		release.Store(true)
+		go func() {
+			for first.Load() < int32(inst) && ctx.Err() == nil {
+				// a goroutine is inside its first Wait as soon as it has its token; `first` counts returned Waits, so also poll the schedule
+				if shared.Left() <= total-inst {
+					break
+				}
+				runtime.Gosched()
+			}
+			time.Sleep(50 * time.Microsecond)
+			cancel()
+		}()
+		wg.Wait()
+		cancel()
+		strange := false
+		rec.mu.Lock()
+		for _, sq := range rec.seqs {
+			for _, e := range *sq {
+				if e.tok < rs || (e.dec != '-' && e.ret < e.tok) {
+					strange = true
+				}
+			}
+		}
+		rec.mu.Unlock()
+		if strange {
+			odd++
+		}
+		if (strange && odd <= 3) || round < 2 {
+			kept = append(kept, fmt.Sprintf("%d/%s", rs, rec.render()))
+		}
+	}
+	return fmt.Sprintf("rounds=%d odd=%d total=%d seq=%s", rounds, odd, total, strings.Join(kept, ";"))
+}
+
 func run(input string) string {
 	m := drv.KV(input)
 	switch m["mode"] {
@@ -451,6 +581,8 @@ func run(input string) string {
 		return runEngine(m)
 	case "proc":
 		return runProc(m)
+	case "race":
+		return runRace(m)
 	}
 	return "BADINPUT"
 }
